@@ -21,8 +21,12 @@ Inductive action :=
 | ACancel.                 (* the request context is cancelled (client went away) *)
 
 (* what the installed interceptor does: call the handler and return its result; return an error
-   (or nil, for c = 0) without calling it; call it and return code c instead *)
-Inductive imode := IPass | IReject (c : nat) | IOverride (c : nat).
+   (or nil, for c = 0) without calling it; call it and return code c instead; call it and, when it
+   succeeds, return (m, nil) -- a message of its own -- instead of the handler's reply (the handler's
+   error is returned unchanged); return (m, nil) without calling the handler. The last two are about
+   the reply value and so about unary methods: a grpc.StreamServerInterceptor has no reply value, the
+   harness' stream interceptor passes through in these modes. *)
+Inductive imode := IPass | IReject (c : nat) | IOverride (c : nat) | IReplace (m : bytes) | IAnswer (m : bytes).
 
 (* a method registered in grpc.ServiceDesc.Methods (unary handler: decode, interceptor, reply) or in
    .Streams (the handler owns the stream); `code` is the status the handler returns at the end *)
@@ -244,28 +248,37 @@ Definition stream_handler (c : cfg) (md : imode) (acts : list action) (final : n
   | IOverride k => match run_acts c acts final s with
              | Ok (e, s1, _) => Ok (e, s1, k, Some k)
              | Err x => Err x | Panic x => Panic x | OutOfFuel => OutOfFuel end
+  | IReplace _ | IAnswer _ =>                  (* no reply value on a stream: as IPass *)
+             match run_acts c acts final s with
+             | Ok (e, s1, code) => Ok (e, s1, code, Some code)
+             | Err x => Err x | Panic x => Panic x | OutOfFuel => OutOfFuel end
   end.
 
 (* handler.go: reply, err := d.Handler(ss, ctx, stream.RecvMsg, opts.unaryInterceptor)
-     generated code: dec(in) -- on error return it; interceptor(ctx, in, info, handler)
-   if err != nil { return err }; return stream.SendMsg(reply) *)
+     generated code: dec(in) -- on error return it; return interceptor(ctx, in, info, handler)
+   if err != nil { return err }; return stream.SendMsg(reply)
+   mux.go (proxied methods): reply, err := opts.unary(ctx, args, info, fn); ...; return stream.SendMsg(reply)
+   -- the value the interceptor layer returned is the one handed to SendMsg. *)
 Definition unary_handler (c : cfg) (md : imode) (pre : list action) (reply : bytes) (final : nat) (s : st) : hfull :=
   match lstep c ARecv s with
   | Ok (e1, s1, ROk) =>
       let user := run_acts c (filter unary_act pre) final s1 in
-      (* (reply?, code) as returned by the interceptor layer *)
-      let ir : outcome (list ev * st * nat * bool) :=
+      (* (reply, code) as returned by the interceptor layer; None = a nil reply *)
+      let ir : outcome (list ev * st * nat * option bytes) :=
         match md with
-        | IPass => match user with Ok (e, s2, code) => Ok (e, s2, code, Nat.eqb code 0)
+        | IPass => match user with Ok (e, s2, code) => Ok (e, s2, code, if Nat.eqb code 0 then Some reply else None)
                    | Err x => Err x | Panic x => Panic x | OutOfFuel => OutOfFuel end
-        | IReject k => Ok ([], s1, k, false)
-        | IOverride k => match user with Ok (e, s2, _) => Ok (e, s2, k, false)
+        | IReject k => Ok ([], s1, k, None)
+        | IOverride k => match user with Ok (e, s2, _) => Ok (e, s2, k, None)
                    | Err x => Err x | Panic x => Panic x | OutOfFuel => OutOfFuel end
+        | IReplace m => match user with Ok (e, s2, code) => Ok (e, s2, code, if Nat.eqb code 0 then Some m else None)
+                   | Err x => Err x | Panic x => Panic x | OutOfFuel => OutOfFuel end
+        | IAnswer m => Ok ([], s1, 0, Some m)
         end in
       match ir with
-      | Ok (e2, s2, code, has_reply) =>
+      | Ok (e2, s2, code, rep) =>
           if Nat.eqb code 0 then
-            match (if has_reply then do_send c reply s2 else do_send_nil c s2) with
+            match (match rep with Some p => do_send c p s2 | None => do_send_nil c s2 end) with
             | Ok (e3, s3, r) => Ok (e1 ++ e2 ++ e3, s3, code_of r, Some code)
             | Err x => Err x | Panic x => Panic x | OutOfFuel => OutOfFuel
             end
@@ -343,6 +356,10 @@ Definition set_stats (b : bool) (sc : scenario) : scenario :=
   mkScenario (s_proto sc) (s_cs sc) (s_ss sc) (s_name sc) (s_routed sc) (s_rule_body sc) (s_reqs sc) (s_hs sc) (s_imode sc) (s_icpt sc) b.
 Definition set_icpt (b : bool) (sc : scenario) : scenario :=
   mkScenario (s_proto sc) (s_cs sc) (s_ss sc) (s_name sc) (s_routed sc) (s_rule_body sc) (s_reqs sc) (s_hs sc) (s_imode sc) b (s_stats sc).
+Definition set_imode (md : imode) (sc : scenario) : scenario :=
+  mkScenario (s_proto sc) (s_cs sc) (s_ss sc) (s_name sc) (s_routed sc) (s_rule_body sc) (s_reqs sc) (s_hs sc) md (s_icpt sc) (s_stats sc).
+Definition set_hs (h : hscript) (sc : scenario) : scenario :=
+  mkScenario (s_proto sc) (s_cs sc) (s_ss sc) (s_name sc) (s_routed sc) (s_rule_body sc) (s_reqs sc) h (s_imode sc) (s_icpt sc) (s_stats sc).
 (* the same RPC against a Mux without interceptors and without a stats handler *)
 Definition plain (sc : scenario) : scenario := set_icpt false (set_stats false sc).
 
@@ -357,6 +374,13 @@ Definition first_ok (sc : scenario) : bool :=
 Definition no_cancel (acts : list action) : bool :=
   forallb (fun a => match a with ACancel => false | _ => true end) acts.
 
-(* an interceptor that returns (nil, nil) for a unary method makes larking call SendMsg(nil) *)
+(* an interceptor that returns (nil, nil) for a unary method makes larking call SendMsg(nil); one
+   that returns a message of its own never does *)
 Definition imode_ok (unary : bool) (md : imode) : Prop :=
-  unary = true -> match md with IPass => True | IReject k | IOverride k => k <> 0 end.
+  unary = true ->
+  match md with IPass => True | IReject k | IOverride k => k <> 0 | IReplace _ | IAnswer _ => True end.
+
+(* the message a successful unary call delivers: the interceptor's own if it returns one, the
+   handler's otherwise *)
+Definition reply_of (md : imode) (reply : bytes) : bytes :=
+  match md with IReplace m | IAnswer m => m | _ => reply end.
